@@ -454,6 +454,7 @@ func (fg *FunctionGenerator) GenerateCustom(ast parser2.AST, gc funcGen.Generato
 			if err != nil {
 				return nil, false, err
 			}
+			impl := fg.GetOpImpl(op.Operator)
 			return func(st funcGen.Stack[Value], cs []Value) (Value, error) {
 				aVal, err := aFunc(st, cs)
 				if err != nil {
@@ -473,6 +474,14 @@ func (fg *FunctionGenerator) GenerateCustom(ast parser2.AST, gc funcGen.Generato
 							return nil, fmt.Errorf("not a bool: %s", TypeName(bVal))
 						}
 					}
+				} else if impl != nil {
+					// no short evaluation if the first operand is not a bool: the
+					// operator itself decides, e.g. the bitwise and of two ints
+					bVal, err := bFunc(st, cs)
+					if err != nil {
+						return nil, err
+					}
+					return impl.Calc(st, aVal, bVal)
 				} else {
 					return nil, fmt.Errorf("not a bool: %s", TypeName(aVal))
 				}
@@ -486,6 +495,7 @@ func (fg *FunctionGenerator) GenerateCustom(ast parser2.AST, gc funcGen.Generato
 			if err != nil {
 				return nil, false, err
 			}
+			impl := fg.GetOpImpl(op.Operator)
 			return func(st funcGen.Stack[Value], cs []Value) (Value, error) {
 				aVal, err := aFunc(st, cs)
 				if err != nil {
@@ -505,6 +515,14 @@ func (fg *FunctionGenerator) GenerateCustom(ast parser2.AST, gc funcGen.Generato
 							return nil, fmt.Errorf("not a bool: %s", TypeName(bVal))
 						}
 					}
+				} else if impl != nil {
+					// no short evaluation if the first operand is not a bool: the
+					// operator itself decides, e.g. the bitwise or of two ints
+					bVal, err := bFunc(st, cs)
+					if err != nil {
+						return nil, err
+					}
+					return impl.Calc(st, aVal, bVal)
 				} else {
 					return nil, fmt.Errorf("not a bool: %s", TypeName(aVal))
 				}
